@@ -115,7 +115,7 @@ EXPORT errno_t _strcmp_s_chk(const char *dest, rsize_t dmax, const char *src,
         }
     }
     /* all dmax characters compared equal: do not look at dest[dmax] */
-    *resultp = dmax ? *dest - *src : 0;
+    *resultp = dmax ? (unsigned char)*dest - (unsigned char)*src : 0;
     return RCNEGATE(EOK);
 }
 #ifdef __KERNEL__
